@@ -6,9 +6,6 @@
 
 use std::collections::{BTreeMap, BTreeSet};
 
-use grafeo_common::types::{EdgeId, NodeId, PropertyKey, Value};
-use grafeo_core::graph::lpg::PropertyStorage;
-use grafeo_core::index::ChunkedAdjacency;
 use serde::{Deserialize, Serialize};
 use serde_json::json;
 
@@ -72,8 +69,152 @@ pub struct ExecResult {
     pub digest: u64,
 }
 
+// The two systems under the same history: the tree in /repo and the unmodified copy of the
+// pinned commit (/verif/pinned). The verdict "wrong" always comes from the map model; the twin
+// only decides whether a deviation is what the pinned tree already did (listed known finding,
+// the run goes on) or something else (never listable, ends the run).
+macro_rules! codec_sys {
+    ($m:ident, $common:ident, $core:ident) => {
+        mod $m {
+            use std::collections::BTreeMap;
+
+            use $common::types::{EdgeId, NodeId, PropertyKey, Value};
+            use $core::graph::lpg::PropertyStorage;
+            use $core::index::ChunkedAdjacency;
+
+            use crate::model_graph::SV;
+
+            fn tv(v: &SV) -> Value {
+                match v {
+                    SV::Int(i) => Value::Int64(*i),
+                    SV::Str(s) => Value::String(s.as_str().into()),
+                    SV::Bool(b) => Value::Bool(*b),
+                    SV::F(b) => Value::Float64(f64::from_bits(*b)),
+                    _ => Value::Null,
+                }
+            }
+            fn fv(v: &Value) -> SV {
+                match v {
+                    Value::Int64(i) => SV::Int(*i),
+                    Value::String(s) => SV::Str(s.to_string()),
+                    Value::Bool(b) => SV::Bool(*b),
+                    Value::Float64(f) => SV::F(f.to_bits()),
+                    Value::Null => SV::Null,
+                    other => SV::Str(format!("{other:?}")),
+                }
+            }
+
+            pub struct Props {
+                st: PropertyStorage<NodeId>,
+            }
+            impl Props {
+                pub fn new() -> Self {
+                    Props { st: PropertyStorage::new() }
+                }
+                pub fn set(&self, id: u64, k: &str, v: &SV) {
+                    self.st.set(NodeId::new(id), PropertyKey::new(k), tv(v));
+                }
+                pub fn remove(&self, id: u64, k: &str) -> Option<SV> {
+                    self.st.remove(NodeId::new(id), &PropertyKey::new(k)).map(|v| fv(&v))
+                }
+                pub fn remove_all(&self, id: u64) {
+                    self.st.remove_all(NodeId::new(id));
+                }
+                pub fn force_compress_all(&self) {
+                    self.st.force_compress_all();
+                }
+                pub fn compress_all(&self) {
+                    self.st.compress_all();
+                }
+                pub fn disable(&self, k: &str) {
+                    self.st.enable_compression(&PropertyKey::new(k), Default::default());
+                }
+                pub fn is_compressed(&self, k: &str) -> bool {
+                    self.st.compression_stats().get(&PropertyKey::new(k)).is_some_and(|s| s.codec.is_some())
+                }
+                pub fn any_compressed(&self) -> bool {
+                    self.st.compression_stats().values().any(|s| s.codec.is_some())
+                }
+                pub fn get(&self, id: u64, k: &str) -> Option<SV> {
+                    self.st.get(NodeId::new(id), &PropertyKey::new(k)).map(|v| fv(&v))
+                }
+                pub fn get_all(&self, id: u64) -> BTreeMap<String, SV> {
+                    self.st.get_all(NodeId::new(id)).iter().map(|(k, v)| (k.as_str().to_string(), fv(v))).collect()
+                }
+                pub fn get_batch(&self, ids: &[u64], k: &str) -> Vec<Option<SV>> {
+                    let idv: Vec<NodeId> = ids.iter().map(|i| NodeId::new(*i)).collect();
+                    self.st.get_batch(&idv, &PropertyKey::new(k)).iter().map(|v| v.as_ref().map(fv)).collect()
+                }
+            }
+
+            pub struct Adj {
+                adj: ChunkedAdjacency,
+            }
+            impl Adj {
+                pub fn new(chunk_capacity: usize) -> Self {
+                    Adj { adj: if chunk_capacity == 64 { ChunkedAdjacency::new() } else { ChunkedAdjacency::with_chunk_capacity(chunk_capacity) } }
+                }
+                pub fn add_edge(&self, s: u64, d: u64, e: u64) {
+                    self.adj.add_edge(NodeId::new(s), NodeId::new(d), EdgeId::new(e));
+                }
+                pub fn mark_deleted(&self, s: u64, e: u64) {
+                    self.adj.mark_deleted(NodeId::new(s), EdgeId::new(e));
+                }
+                pub fn compact(&self) {
+                    self.adj.compact();
+                }
+                pub fn compact_if_needed(&self) {
+                    self.adj.compact_if_needed();
+                }
+                pub fn freeze_all(&self) {
+                    self.adj.freeze_all();
+                }
+                pub fn clear(&self) {
+                    self.adj.clear();
+                }
+                pub fn cold_entries(&self) -> usize {
+                    self.adj.memory_stats().cold_entries
+                }
+                pub fn edges_from(&self, s: u64) -> Vec<(u64, u64)> {
+                    let mut v: Vec<(u64, u64)> = self.adj.edges_from(NodeId::new(s)).iter().map(|(d, e)| (d.as_u64(), e.as_u64())).collect();
+                    v.sort_unstable();
+                    v
+                }
+                pub fn neighbors(&self, s: u64) -> Vec<u64> {
+                    let mut v: Vec<u64> = self.adj.neighbors(NodeId::new(s)).iter().map(|n| n.as_u64()).collect();
+                    v.sort_unstable();
+                    v
+                }
+                pub fn out_degree(&self, s: u64) -> usize {
+                    self.adj.out_degree(NodeId::new(s))
+                }
+                pub fn active_edge_count(&self) -> usize {
+                    self.adj.active_edge_count()
+                }
+            }
+        }
+    };
+}
+
+codec_sys!(real, grafeo_common, grafeo_core);
+codec_sys!(pin, pinned_common, pinned_core);
+
+/// Records a deviation from the model; returns true when the run has to stop (the deviation
+/// is not the pinned tree's own).
+fn deviation(findings: &mut Vec<(String, String)>, probes: &mut BTreeMap<&'static str, u64>, base: String, same_as_pinned: bool, detail: String) -> bool {
+    let sig = if same_as_pinned { format!("{base} | as-pinned-tree") } else { format!("{base} | differs-from-pinned-tree") };
+    if !findings.iter().any(|(s, _)| *s == sig) {
+        findings.push((sig, detail));
+    }
+    if same_as_pinned {
+        *probes.entry("deviation_shared_with_pinned_tree_run_continues").or_insert(0) += 1;
+    }
+    !same_as_pinned
+}
+
 fn exec_props(ops: &[COp]) -> ExecResult {
-    let st: PropertyStorage<NodeId> = PropertyStorage::new();
+    let st = real::Props::new();
+    let pst = pin::Props::new();
     let mut m: BTreeMap<(u64, u8), SV> = BTreeMap::new();
     let mut findings: Vec<(String, String)> = Vec::new();
     let mut probes: BTreeMap<&'static str, u64> = BTreeMap::new();
@@ -82,42 +223,53 @@ fn exec_props(ops: &[COp]) -> ExecResult {
     let mut digest = 0u64;
     let mut steps_done = 0;
     let mut ids: BTreeSet<u64> = BTreeSet::new();
-    for (i, op) in ops.iter().enumerate() {
+    let mut compress_cycles = 0u64;
+    'ops: for (i, op) in ops.iter().enumerate() {
         match op {
             COp::Set(id, k, v) => {
-                st.set(NodeId::new(*id), PropertyKey::new(PKEYS[*k as usize % 3]), v.to_value());
+                st.set(*id, PKEYS[*k as usize % 3], v);
+                pst.set(*id, PKEYS[*k as usize % 3], v);
                 m.insert((*id, *k % 3), v.clone());
                 ids.insert(*id);
             }
             COp::Remove(id, k) => {
-                let got = st.remove(NodeId::new(*id), &PropertyKey::new(PKEYS[*k as usize % 3])).map(|v| SV::from_value(&v));
+                let got = st.remove(*id, PKEYS[*k as usize % 3]);
+                let pgot = pst.remove(*id, PKEYS[*k as usize % 3]);
                 let want = m.remove(&(*id, *k % 3));
-                if got != want {
-                    findings.push((format!("C15 | props | remove-return | state={since_compress}"), format!("step {i}: {got:?} vs {want:?}")));
-                    break;
+                if got != want && deviation(&mut findings, &mut probes, format!("C15 | props | remove-return | state={since_compress}"), got == pgot, format!("step {i}: {got:?} vs {want:?} (pinned tree {pgot:?})")) {
+                    break 'ops;
                 }
             }
             COp::RemoveAll(id) => {
-                st.remove_all(NodeId::new(*id));
+                st.remove_all(*id);
+                pst.remove_all(*id);
                 m.retain(|(x, _), _| x != id);
             }
             COp::ForceCompressAll => {
                 st.force_compress_all();
-                let any = st.compression_stats().values().any(|s| s.codec.is_some());
-                if any {
+                pst.force_compress_all();
+                if st.any_compressed() {
                     compressed_once = true;
                     since_compress = "compressed";
+                    compress_cycles += 1;
                     *probes.entry("column_compressed").or_insert(0) += 1;
+                    if compress_cycles == 2 {
+                        *probes.entry("second_compression_in_one_history").or_insert(0) += 1;
+                    }
                 }
             }
-            COp::CompressAll => st.compress_all(),
+            COp::CompressAll => {
+                st.compress_all();
+                pst.compress_all();
+            }
             COp::DisableCompression(k) => {
-                let key = PropertyKey::new(PKEYS[*k as usize % 3]);
-                let was = st.compression_stats().get(&key).is_some_and(|s| s.codec.is_some());
-                st.enable_compression(&key, Default::default());
+                let key = PKEYS[*k as usize % 3];
+                let was = st.is_compressed(key);
+                st.disable(key);
+                pst.disable(key);
                 if was {
                     *probes.entry("column_decompressed").or_insert(0) += 1;
-                    if !st.compression_stats().values().any(|s| s.codec.is_some()) {
+                    if !st.any_compressed() {
                         since_compress = "decompressed";
                     }
                 }
@@ -127,49 +279,48 @@ fn exec_props(ops: &[COp]) -> ExecResult {
         steps_done = i + 1;
         digest = digest.rotate_left(3) ^ fnv(op.kind().as_bytes()) ^ m.len() as u64;
         // reads
-        let mut bad: Option<(String, String)> = None;
         for id in &ids {
             for k in 0..3u8 {
-                let key = PropertyKey::new(PKEYS[k as usize]);
-                let got = st.get(NodeId::new(*id), &key).map(|v| SV::from_value(&v));
+                let key = PKEYS[k as usize];
+                let got = st.get(*id, key);
                 let want = m.get(&(*id, k)).cloned();
                 if got != want {
+                    let pgot = pst.get(*id, key);
                     let class = if got.is_none() { "value-lost" } else if want.is_none() { "value-resurrected" } else { "value-changed" };
-                    bad = Some((format!("C15 | props | get | {class} | state={since_compress}"), format!("step {i} (after {}): id {id} key {}: {got:?} vs {want:?}", op.kind(), PKEYS[k as usize])));
-                    break;
+                    if deviation(&mut findings, &mut probes, format!("C15 | props | get | {class} | state={since_compress}"), got == pgot, format!("step {i} (after {}): id {id} key {key}: {got:?} vs {want:?} (pinned tree {pgot:?})", op.kind())) {
+                        break 'ops;
+                    }
                 }
             }
-            if bad.is_some() {
-                break;
-            }
-            let all: BTreeMap<String, SV> = st.get_all(NodeId::new(*id)).iter().map(|(k, v)| (k.as_str().to_string(), SV::from_value(v))).collect();
+            let all = st.get_all(*id);
             let want: BTreeMap<String, SV> = m.iter().filter(|((x, _), _)| x == id).map(|((_, k), v)| (PKEYS[*k as usize].to_string(), v.clone())).collect();
             if all != want {
-                bad = Some((format!("C15 | props | get_all | mismatch | state={since_compress}"), format!("step {i} (after {}): id {id}: {all:?} vs {want:?}", op.kind())));
-                break;
-            }
-        }
-        if bad.is_none() && !ids.is_empty() {
-            let idv: Vec<NodeId> = ids.iter().map(|i| NodeId::new(*i)).collect();
-            for k in 0..3u8 {
-                let got: Vec<Option<SV>> = st.get_batch(&idv, &PropertyKey::new(PKEYS[k as usize])).iter().map(|v| v.as_ref().map(SV::from_value)).collect();
-                let want: Vec<Option<SV>> = ids.iter().map(|id| m.get(&(*id, k)).cloned()).collect();
-                if got != want {
-                    bad = Some((format!("C15 | props | get_batch | mismatch | state={since_compress}"), format!("step {i} (after {}): key {}: {got:?} vs {want:?}", op.kind(), PKEYS[k as usize])));
-                    break;
+                let pall = pst.get_all(*id);
+                if deviation(&mut findings, &mut probes, format!("C15 | props | get_all | mismatch | state={since_compress}"), all == pall, format!("step {i} (after {}): id {id}: {all:?} vs {want:?} (pinned tree {pall:?})", op.kind())) {
+                    break 'ops;
                 }
             }
         }
-        if let Some(b) = bad {
-            findings.push(b);
-            break;
+        if !ids.is_empty() {
+            let idv: Vec<u64> = ids.iter().copied().collect();
+            for k in 0..3u8 {
+                let got = st.get_batch(&idv, PKEYS[k as usize]);
+                let want: Vec<Option<SV>> = ids.iter().map(|id| m.get(&(*id, k)).cloned()).collect();
+                if got != want {
+                    let pgot = pst.get_batch(&idv, PKEYS[k as usize]);
+                    if deviation(&mut findings, &mut probes, format!("C15 | props | get_batch | mismatch | state={since_compress}"), got == pgot, format!("step {i} (after {}): key {}: {got:?} vs {want:?} (pinned tree {pgot:?})", op.kind(), PKEYS[k as usize])) {
+                        break 'ops;
+                    }
+                }
+            }
         }
     }
     ExecResult { findings, probes, steps_done, nontrivial: compressed_once || steps_done >= 4, digest }
 }
 
 fn exec_adj(cfg: &Config, ops: &[COp]) -> ExecResult {
-    let adj = if cfg.chunk_capacity == 64 { ChunkedAdjacency::new() } else { ChunkedAdjacency::with_chunk_capacity(cfg.chunk_capacity) };
+    let adj = real::Adj::new(cfg.chunk_capacity);
+    let padj = pin::Adj::new(cfg.chunk_capacity);
     // live edges in insertion order: (src, dst, eid)
     let mut live: Vec<(u64, u64, u64)> = Vec::new();
     let mut next_eid = 0u64;
@@ -180,10 +331,11 @@ fn exec_adj(cfg: &Config, ops: &[COp]) -> ExecResult {
     let mut steps_done = 0;
     let mut max_list = 0usize;
     let mut state = "hot";
-    for (i, op) in ops.iter().enumerate() {
+    'ops: for (i, op) in ops.iter().enumerate() {
         match op {
             COp::AddEdge(s, d) => {
-                adj.add_edge(NodeId::new(*s), NodeId::new(*d), EdgeId::new(next_eid));
+                adj.add_edge(*s, *d, next_eid);
+                padj.add_edge(*s, *d, next_eid);
                 live.push((*s, *d, next_eid));
                 next_eid += 1;
                 srcs.insert(*s);
@@ -195,32 +347,37 @@ fn exec_adj(cfg: &Config, ops: &[COp]) -> ExecResult {
                     continue;
                 }
                 let (s, _, e) = live.remove(*n as usize % live.len());
-                adj.mark_deleted(NodeId::new(s), EdgeId::new(e));
+                adj.mark_deleted(s, e);
+                padj.mark_deleted(s, e);
             }
             COp::Compact => {
                 adj.compact();
+                padj.compact();
                 *probes.entry("compaction").or_insert(0) += 1;
-                if adj.memory_stats().cold_entries > 0 {
+                if adj.cold_entries() > 0 {
                     state = "has-cold-chunks";
                     *probes.entry("adjacency_went_cold").or_insert(0) += 1;
                 }
             }
             COp::CompactIfNeeded => {
                 adj.compact_if_needed();
-                if adj.memory_stats().cold_entries > 0 {
+                padj.compact_if_needed();
+                if adj.cold_entries() > 0 {
                     state = "has-cold-chunks";
                 }
             }
             COp::FreezeAll => {
                 adj.freeze_all();
+                padj.freeze_all();
                 *probes.entry("freeze_all").or_insert(0) += 1;
-                if adj.memory_stats().cold_entries > 0 {
+                if adj.cold_entries() > 0 {
                     state = "has-cold-chunks";
                     *probes.entry("adjacency_went_cold").or_insert(0) += 1;
                 }
             }
             COp::Clear => {
                 adj.clear();
+                padj.clear();
                 live.clear();
                 state = "hot";
             }
@@ -231,36 +388,29 @@ fn exec_adj(cfg: &Config, ops: &[COp]) -> ExecResult {
         if (i + 1) % 4 != 0 && i + 1 != ops.len() && !matches!(op, COp::Compact | COp::FreezeAll | COp::CompactIfNeeded | COp::Clear | COp::DeleteNth(_)) {
             continue; // full comparison every 4th add and after every structural operation
         }
-        let mut bad: Option<(String, String)> = None;
         for s in &srcs {
-            let mut got: Vec<(u64, u64)> = adj.edges_from(NodeId::new(*s)).iter().map(|(d, e)| (d.as_u64(), e.as_u64())).collect();
-            got.sort_unstable();
+            let got = adj.edges_from(*s);
             let mut want: Vec<(u64, u64)> = live.iter().filter(|e| e.0 == *s).map(|e| (e.1, e.2)).collect();
             want.sort_unstable();
             if got != want {
+                let pgot = padj.edges_from(*s);
                 let class = if got.len() < want.len() { "entry-lost" } else if got.len() > want.len() { "deleted-entry-visible-or-duplicated" } else { "entry-changed" };
-                bad = Some((format!("C15 | adjacency | edges_from | {class} | state={state}"), format!("step {i} (after {}): src {s}: {} entries vs {} expected; first differences: {:?} vs {:?}", op.kind(), got.len(), want.len(), got.iter().filter(|x| !want.contains(x)).take(3).collect::<Vec<_>>(), want.iter().filter(|x| !got.contains(x)).take(3).collect::<Vec<_>>())));
-                break;
+                if deviation(&mut findings, &mut probes, format!("C15 | adjacency | edges_from | {class} | state={state}"), got == pgot, format!("step {i} (after {}): src {s}: {} entries vs {} expected; first differences: {:?} vs {:?}", op.kind(), got.len(), want.len(), got.iter().filter(|x| !want.contains(x)).take(3).collect::<Vec<_>>(), want.iter().filter(|x| !got.contains(x)).take(3).collect::<Vec<_>>())) {
+                    break 'ops;
+                }
             }
-            let mut nb: Vec<u64> = adj.neighbors(NodeId::new(*s)).iter().map(|n| n.as_u64()).collect();
-            nb.sort_unstable();
+            let nb = adj.neighbors(*s);
             let mut wn: Vec<u64> = want.iter().map(|(d, _)| *d).collect();
             wn.sort_unstable();
-            if nb != wn {
-                bad = Some((format!("C15 | adjacency | neighbors | mismatch | state={state}"), format!("step {i} (after {}): src {s}: {nb:?} vs {wn:?}", op.kind())));
-                break;
+            if nb != wn && deviation(&mut findings, &mut probes, format!("C15 | adjacency | neighbors | mismatch | state={state}"), nb == padj.neighbors(*s), format!("step {i} (after {}): src {s}: {nb:?} vs {wn:?}", op.kind())) {
+                break 'ops;
             }
-            if adj.out_degree(NodeId::new(*s)) != want.len() {
-                bad = Some((format!("C15 | adjacency | out_degree | mismatch | state={state}"), format!("step {i} (after {}): src {s}: {} vs {}", op.kind(), adj.out_degree(NodeId::new(*s)), want.len())));
-                break;
+            if adj.out_degree(*s) != want.len() && deviation(&mut findings, &mut probes, format!("C15 | adjacency | out_degree | mismatch | state={state}"), adj.out_degree(*s) == padj.out_degree(*s), format!("step {i} (after {}): src {s}: {} vs {}", op.kind(), adj.out_degree(*s), want.len())) {
+                break 'ops;
             }
         }
-        if bad.is_none() && adj.active_edge_count() != live.len() {
-            bad = Some((format!("C15 | adjacency | active_edge_count | mismatch | state={state}"), format!("step {i} (after {}): {} vs {}", op.kind(), adj.active_edge_count(), live.len())));
-        }
-        if let Some(b) = bad {
-            findings.push(b);
-            break;
+        if adj.active_edge_count() != live.len() && deviation(&mut findings, &mut probes, format!("C15 | adjacency | active_edge_count | mismatch | state={state}"), adj.active_edge_count() == padj.active_edge_count(), format!("step {i} (after {}): {} vs {}", op.kind(), adj.active_edge_count(), live.len())) {
+            break 'ops;
         }
     }
     for (t, name) in [(64usize, "list_crossed_64"), (128, "list_crossed_128"), (320, "list_crossed_320")] {
